@@ -648,3 +648,25 @@ def _gen_feasible(rng):
 
 CONTRACTS[ER + ":count_errors#complete"].gen = _gen_feasible
 CONTRACTS[ER + ":count_errors#complete"].call = _call_count_errors
+
+
+# ====================================================================== GamePlanSpace.validate (C13 / C07 / C08 / C15 pre-condition)
+# the kernels' pre-condition "entries in -n..n, shape (n-1)*rounds x n" is what this method lets through
+contract(
+    "moptipyapps.ttp.game_plan_space:GamePlanSpace.validate",
+    props="C13 C07 C08",
+    block=("assign n #0", "for #0"),
+    params={"x": A2("Y")}, ghosts={"N": PYINT, "R": PYINT}, i64=False,
+    attrs={"inst.n_cities": "N", "inst.rounds": "R", "x.shape": "(shape(x, 0), shape(x, 1))"},
+    requires=["N >= 2 and R >= 1"],
+    loops={"0": Loop(inv=["0 <= i and i <= n_days and n == N and n_days == (N - 1) * R and min_id == -N"
+                          " and shape(x, 0) == n_days and shape(x, 1) == n",
+                          "forall(a, 0, i, forall(b, 0, n, -N <= x[a, b] and x[a, b] <= N))"]),
+           "0.0": Loop(inv=["0 <= i and i < n_days and 0 <= j and j <= n and n == N and n_days == (N - 1) * R and min_id == -N"
+                            " and shape(x, 0) == n_days and shape(x, 1) == n",
+                            "forall(a, 0, i, forall(b, 0, n, -N <= x[a, b] and x[a, b] <= N))",
+                            "forall(b, 0, j, -N <= x[i, b] and x[i, b] <= N)"])},
+    ensures=[tag("C13 C07 C08", "accepted-plans-have-the-right-shape-and-entries-in-range",
+                 "shape(x, 0) == (N - 1) * R and shape(x, 1) == N and "
+                 "forall(a, 0, (N - 1) * R, forall(b, 0, N, -N <= x[a, b] and x[a, b] <= N))")],
+)
